@@ -451,7 +451,7 @@ static void traced_op(int op) {
                       0);
 }
 
-static int g_iters;
+static int g_iters, g_class0_only;
 static pthread_barrier_t g_start;
 static void* worker(void* arg) {
   int64_t tid = (int64_t)(intptr_t)arg;
@@ -459,7 +459,11 @@ static void* worker(void* arg) {
   uint64_t s = gseed * 7919ull + (uint64_t)tid;
   pthread_barrier_wait(&g_start);
   traced_op(OP_FRESH);
-  for (int it = 0; it < g_iters; ++it) traced_op((int)(splitmix(&s) % NOPS));
+  for (int it = 0; it < g_iters; ++it) {
+    int op = (int)(splitmix(&s) % NOPS);
+    if (g_class0_only) while (op_class[op]) op = (int)(splitmix(&s) % NOPS);   // module-level and table operations only
+    traced_op(op);
+  }
   return 0;
 }
 
@@ -500,6 +504,7 @@ int main(int argc, char** argv) {
     for (int op = 0; op < NOPS; ++op) traced_op(op);
     spqlios_verif_event(EV_WARMUP_DONE, 0, 0, 0, 0, 0);
   }
+  g_class0_only = getenv("CONC_CLASS0_ONLY") != 0;
   pthread_barrier_init(&g_start, 0, (unsigned)nthreads);
   pthread_t* th = malloc(sizeof(pthread_t) * (size_t)nthreads);
   for (int i = 0; i < nthreads; ++i) pthread_create(&th[i], 0, worker, (void*)(intptr_t)(i + 1));
